@@ -363,6 +363,16 @@ func c03Run(w *W) {
 			if id&0x80000000 == 0 {
 				w.Failf("C03/request-id-without-top-bit", "request %s transmitted with id %08x", ps.q.tag, id)
 			}
+			// every request has an id of its own: a reply to an earlier request
+			// of any context can then never pass for the reply to this one
+			for cx, old := range ids {
+				for _, o := range old {
+					if o == id {
+						w.Failf("C03/request-id-reused", "request %s of ctx%d was transmitted with id %08x, the id an earlier request (of ctx%d) went out with", ps.q.tag, ps.q.ctx, id, cx)
+						return
+					}
+				}
+			}
 			ops[ps.opIdx].id = id
 			ids[ps.q.ctx] = append(ids[ps.q.ctx], id)
 		}
